@@ -46,7 +46,7 @@ theorem invS_decl {env : CEnv} {st st' : HSt} {eff b t n e}
 
 theorem invS_assign {env : CEnv} {st st' : HSt} {eff b lhs op e}
     (h : compileStmtH env st (.assign lhs op e) = .ok (eff, b, st')) :
-    ∃ c1 s1 eff0 src, compileExprH env st e = .ok (c1, s1) ∧ compileAssign env lhs op c1 = .ok (eff0, src) ∧
+    ∃ c1 s1 eff0 src, compileExprH env (regLhsH st lhs) e = .ok (c1, s1) ∧ compileAssign env lhs op c1 = .ok (eff0, src) ∧
       eff = some (chk s1 eff0 []).1 ∧ b = [] ∧ st' = (chk s1 eff0 []).2 := by
   simp only [compileStmtH] at h
   obtain ⟨⟨c1, s1⟩, h1, h⟩ := bind_ok h
@@ -57,7 +57,7 @@ theorem invS_assign {env : CEnv} {st st' : HSt} {eff b lhs op e}
 
 theorem invS_chain {env : CEnv} {st st' : HSt} {eff b lhs1 lhs2 op2 e}
     (h : compileStmtH env st (.chain lhs1 lhs2 op2 e) = .ok (eff, b, st')) :
-    ∃ c1 s1 effI srcI effO srcO, compileExprH env st e = .ok (c1, s1) ∧
+    ∃ c1 s1 effI srcI effO srcO, compileExprH env (regLhsH (regLhsH st lhs1) lhs2) e = .ok (c1, s1) ∧
       compileAssign env lhs2 op2 c1 = .ok (effI, srcI) ∧ compileAssign env lhs1 "=" srcI = .ok (effO, srcO) ∧
       eff = some (chk (chk (chk s1 effI []).2 effO []).2 (mkSeq [(chk (chk s1 effI []).2 effO []).1, (chk s1 effI []).1]) []).1 ∧
       b = [] ∧
